@@ -454,8 +454,21 @@ func (p *pdr) parseApplicationID(ie *ie.IE, appPFDs map[string]appPFD) error {
 	return nil
 }
 
+// decodeSDFFilter decodes an SDF Filter IE. go-pfcp slices the payload by the length fields
+// embedded in it without checking them, so an inconsistent IE makes the decoder panic; that
+// is reported as a decoding error here.
+func decodeSDFFilter(sdfIE *ie.IE) (fields *ie.SDFFilterFields, err error) {
+	defer func() {
+		if r := recover(); r != nil {
+			fields, err = nil, ErrOperationFailedWithReason("decode SDF Filter", fmt.Sprint(r))
+		}
+	}()
+
+	return sdfIE.SDFFilter()
+}
+
 func (p *pdr) parseSDFFilter(ie *ie.IE) error {
-	sdfFields, err := ie.SDFFilter()
+	sdfFields, err := decodeSDFFilter(ie)
 	if err != nil {
 		return err
 	}
